@@ -4,7 +4,8 @@ import Driver.QC
 /-!
   Engine `corr`:
     corr id=<n> m=<variant> stream=0|1 x=<expected> qf=<cnt|val|zig|dlow>:<k> seq=<item>,…
-    item ::= r<nid>:<val> | e<nid>:<code> | c | w<level>        (w = register Watch(level) now)
+    item ::= r<nid>:<val> | e<nid>:<code> | x<nid>:0 | c | w<level>
+             (w = register Watch(level) now; x = the server behind the node dies: its stream fails)
   answers  id=<n> snaps=<s0>|<s1>|…   one snapshot after the call was issued (6 watchers for the
   levels -1,0,1,2,3,5 registered) and one after every item, each
     v=<raw value|nil>,tv=<typed value|nil|PANIC>,l=<level>,e=<none|inc:ids:n|ctx:ids:n>,d=<0|1>,w=<closed flags>
@@ -24,10 +25,14 @@ def cqfEval (kind : String) (k : Int) (reps : RepMap Int) : Int × Int × Bool :
   | "dlow" => (mx, if decide (k ≤ n) then 0 else n, decide (k ≤ n))
   | _ => (0, 0, false)
 
-inductive CItem | arr (a : Arrival Int Nat) | watch (l : Int)
+inductive CItem | arr (a : Arrival Int Nat) | watch (l : Int) | crash (n : NodeId)
 
 def parseCItem (s : String) : Option CItem :=
   if s.startsWith "w" then ((s.drop 1).toString.toInt?).map CItem.watch
+  else if s.startsWith "x" then
+    match ((s.drop 1).toString.splitOn ":") with
+    | [n, _] => n.toNat?.map CItem.crash
+    | _ => none
   else (parseArrival s).map CItem.arr
 
 def showCErr : Option (CErr Nat) → String
@@ -43,7 +48,7 @@ def showSnap (o : Obj Int Nat) : String :=
 
 /-- the arrivals among the items of a case (the part of the history that has not been consumed) -/
 def arrivalsOf (items : List CItem) : List (Arrival Int Nat) :=
-  items.filterMap fun i => match i with | .arr a => some a | .watch _ => none
+  items.filterMap fun i => match i with | .arr a => some a | _ => none
 
 /-- settle: the top-of-loop exhaustion test after the last consumed arrival; `rest` = the part of the history
     the test can see (the branch reports the context's error when the context's end is the next event, exactly
@@ -63,6 +68,16 @@ def corrRun (qf : RepMap Int → Int × Int × Bool) (stream : Bool) (x : Nat) :
   | st, o, .watch l :: rest =>
     let o' := o.watch l
     showSnap o' :: corrRun qf stream x st o' rest
+  | st, o, .crash n :: rest =>
+    -- the node's stream fails: every request that still has a router on it is answered with one error; a
+    -- request that the node has already answered with an error has none (Chan: `no_router_after_error`,
+    -- `at_most_one_error`), so a node that has failed is not reported a second time
+    if o.done || st.errs.any (fun p => p.1 == n) then showSnap o :: corrRun qf stream x st o rest
+    else match stepArrival qf stream x st o (.error n n) with
+      | none => ["SET-PANIC"]
+      | some (st', o', _) =>
+        let o'' := settle stream x st' o' []
+        showSnap o'' :: corrRun qf stream x st' o'' rest
   | st, o, .arr a :: rest =>
     if o.done then showSnap o :: corrRun qf stream x st o rest   -- the loop has returned: nothing is consumed
     else match stepArrival qf stream x st o a with
